@@ -25,8 +25,9 @@ package main
 //                  call positions of the unchanged flow (lookup ... consume window as in the model)
 //   wider-window : more than that, but the observed lookups did precede the first observed consume
 //                  (the window of the running code is wider than the model's)
-//   no-overlap   : more successes than observed lookups before the first observed consume - a
-//                  credential that is not consumed at all
+//   no-overlap   : more successes than observed lookups before the first observed end of a window
+//                  (consume call or, without one, completion of the request) - e.g. a credential that
+//                  is not consumed at all, so that even serial presentations succeed
 // Only `overlap` is a known finding (K1-K4: the storage interfaces offer no atomic take).
 
 import (
@@ -53,7 +54,10 @@ type c15Scenario struct {
 	Rotation bool
 	Lookup   CallKind
 	Consume  CallKind
-	Prefix   []Op
+	// the unchanged flow, as in the model (Race.solo_calls / lookup_pos / consume_pos; Corr/C15.v checks
+	// that the model agrees): storage calls of one accepted request, position of the lookup, of the consume
+	N, L, C int
+	Prefix  []Op
 	// the consuming request, given the observations of the prefix
 	Race func(prefixObs []Obs) Op
 	// the credential is one-time under this rotation setting
@@ -85,7 +89,7 @@ func c15Scenarios(rotation bool) []c15Scenario {
 	par := Op{Kind: "Par", Cred: c15Cred, Params: c15Params}
 	rot := "any"
 	return []c15Scenario{
-		{Kind: "code", SigKind: "code:rotation=" + rot, Coq: "scn_code", Rotation: rotation, Lookup: KAGet, Consume: KADel, OneTime: true,
+		{Kind: "code", SigKind: "code:rotation=" + rot, Coq: "scn_code", Rotation: rotation, Lookup: KAGet, Consume: KADel, N: 4, L: 1, C: 2, OneTime: true,
 			Prefix: []Op{authorize},
 			Race: func(p []Obs) Op {
 				o := c15Token("authorization_code")
@@ -93,7 +97,7 @@ func c15Scenarios(rotation bool) []c15Scenario {
 				return o
 			}},
 		{Kind: "refresh", SigKind: "refresh:rotation=" + map[bool]string{true: "on", false: "off"}[rotation], Coq: "scn_refresh",
-			Rotation: rotation, Lookup: KGGet, Consume: KGSave, OneTime: rotation,
+			Rotation: rotation, Lookup: KGGet, Consume: KGSave, N: 3, L: 1, C: 2, OneTime: rotation,
 			Prefix: []Op{authorize, func() Op {
 				o := c15Token("authorization_code")
 				o.Code, o.Redirect = mint(0, KCode), "https://c1.example/cb"
@@ -104,14 +108,14 @@ func c15Scenarios(rotation bool) []c15Scenario {
 				o.Refresh = p[1].Rt
 				return o
 			}},
-		{Kind: "request_uri", SigKind: "request_uri:rotation=" + rot, Coq: "scn_par", Rotation: rotation, Lookup: KAGet, Consume: KASave, OneTime: true,
+		{Kind: "request_uri", SigKind: "request_uri:rotation=" + rot, Coq: "scn_par", Rotation: rotation, Lookup: KAGet, Consume: KASave, N: 4, L: 1, C: 3, OneTime: true,
 			Prefix: []Op{par},
 			Race: func(p []Obs) Op {
 				o := authorize
 				o.Params.RequestURI = p[0].H
 				return o
 			}},
-		{Kind: "request_uri_page", SigKind: "request_uri:rotation=" + rot, Coq: "scn_par_page", Rotation: rotation, Lookup: KAGet, Consume: KASave, OneTime: true,
+		{Kind: "request_uri_page", SigKind: "request_uri:rotation=" + rot, Coq: "scn_par_page", Rotation: rotation, Lookup: KAGet, Consume: KASave, N: 3, L: 1, C: 2, OneTime: true,
 			Prefix: []Op{par},
 			Race: func(p []Obs) Op {
 				o := authorize
@@ -119,7 +123,7 @@ func c15Scenarios(rotation bool) []c15Scenario {
 				o.Pol = Pol{Kind: "PolInProgress"}
 				return o
 			}},
-		{Kind: "auth_req_id", SigKind: "auth_req_id:rotation=" + rot, Coq: "scn_ciba", Rotation: rotation, Lookup: KAGet, Consume: KADel, OneTime: true,
+		{Kind: "auth_req_id", SigKind: "auth_req_id:rotation=" + rot, Coq: "scn_ciba", Rotation: rotation, Lookup: KAGet, Consume: KADel, N: 4, L: 1, C: 2, OneTime: true,
 			Prefix: []Op{{Kind: "BcAuthorize", Cred: c15Cred, Params: Params{Scopes: "openid email", LoginHint: "alice"}, InitOK: true, Sub: "alice", Granted: "openid email"}},
 			Race: func(p []Obs) Op {
 				o := c15Token("urn:openid:params:grant-type:ciba")
@@ -440,25 +444,43 @@ func (r *c15Run) successes() int {
 	return n
 }
 
-// observed window: requests whose first lookup call was performed before the first consume call performed
+// observed window: the number of requests whose lookup call was performed before the first observed
+// end of a window - a request's window ends at its consume call or, if it performs none, when it completes
 func c15ObservedWindow(tr []c15Step, k int, lookup, consume CallKind) int {
 	first := len(tr)
-	for p, s := range tr {
-		if s.Kind == consume {
-			first = p
-			break
+	for i := 0; i < k; i++ {
+		end, last, seenLookup := -1, -1, false
+		for p, s := range tr {
+			if s.Req != i {
+				continue
+			}
+			last = p
+			if s.Kind == lookup {
+				seenLookup = true
+			}
+			if s.Kind == consume && seenLookup && end < 0 {
+				end = p
+			}
+		}
+		if end < 0 {
+			end = last + 1 // completion: just after its last call
+		}
+		if seenLookup && end < first {
+			first = end
 		}
 	}
+	n := 0
 	seen := map[int]bool{}
 	for p, s := range tr {
 		if p >= first {
 			break
 		}
-		if s.Kind == lookup {
+		if s.Kind == lookup && !seen[s.Req] {
 			seen[s.Req] = true
+			n++
 		}
 	}
-	return len(seen)
+	return n
 }
 
 func c15Pos(log []CallKind, k CallKind) int {
@@ -593,14 +615,16 @@ func init() {
 		}
 		for _, rotation := range []bool{true, false} {
 			for _, sc := range c15Scenarios(rotation) {
-				// the flow's call positions, read off a request served alone on the real provider
+				// a request served alone on the real provider must succeed
 				solo := c15Execute(sc, "copy", 1, nil)
 				if solo.Err != "" || !solo.OK[0] {
 					addFinding("harness:c15:solo:"+sc.Kind, fmt.Sprintf("the %s scenario does not work on the real provider when served alone: %s %v", sc.Kind, solo.Err, solo.Status), c15Replay(sc, &solo))
 					continue
 				}
-				n := len(solo.Logs[0])
-				L, C := c15Pos(solo.Logs[0], sc.Lookup), c15Pos(solo.Logs[0], sc.Consume)
+				n, L, C := sc.N, sc.L, sc.C
+				if len(solo.Logs[0]) != n || c15Pos(solo.Logs[0], sc.Lookup) != L || c15Pos(solo.Logs[0], sc.Consume) != C {
+					ctx.Meta.Dist["solo-flow-differs-from-model/"+sc.Kind]++
+				}
 				type plan struct {
 					k          int
 					scheds     [][]int
